@@ -130,12 +130,13 @@ def rule_cb3(A: Analysis, rep):
         d = norm(l.target)
         hdr = [n for n in g.nodes if n.kind == "for" and n.ast is l][0]
         be = [x for (x, lb) in hdr.succ if lb == "T"][0]
-        gs = A.path_guards(g, be, rs[0], fi)
+        gs = A.path_guards(g, be, rs[0], fi, xstop=[d])
         ins = [a for c in gs for a, p in c if a.startswith("in(%s.name," % d) and p]
         ok = len(ins) == 1
         if ok:
             st = ins[0][len("in(%s.name," % d):-1]
-            marks = [n for n in g.nodes if n.kind == "stmt" and norm(n.ast) == "%s.add(%s.name)" % (st, d)]
+            marks = [n for n in g.nodes if n.kind == "stmt" and isinstance(n.ast, ast.Expr) and isinstance(n.ast.value, ast.Call) and
+                     A.xtext(n.ast.value, fi, stop=[d, st]) == "%s.add(%s.name)" % (st, d)]
             r = g.reach([be], removed=marks, skip_labels=is_exc)
             ok = bool(marks) and not any(any(m is hdr and is_back(lb) for m, lb in n.succ) for n in r)
     rep.check(ok, "CB3", "combine rejects two dependencies with the same name", fi.node, "names are remembered on every iteration and tested before", "Combine.__init__ no longer rejects duplicate dependency names")
